@@ -21,11 +21,11 @@ import (
 	"sigs.k8s.io/controller-runtime/pkg/reconcile"
 
 	xpv1 "github.com/crossplane/crossplane-runtime/apis/common/v1"
+	"github.com/crossplane/crossplane-runtime/pkg/fieldpath"
 	"github.com/crossplane/crossplane-runtime/pkg/resource"
 	uclaim "github.com/crossplane/crossplane-runtime/pkg/resource/unstructured/claim"
 	ucomposite "github.com/crossplane/crossplane-runtime/pkg/resource/unstructured/composite"
 	"github.com/crossplane/crossplane-runtime/pkg/resource/unstructured/reference"
-	"github.com/crossplane/crossplane-runtime/pkg/fieldpath"
 
 	v1 "github.com/crossplane/crossplane/apis/apiextensions/v1"
 	"github.com/crossplane/crossplane/internal/controller/apiextensions/claim"
@@ -49,12 +49,12 @@ type c05Scn struct {
 	// kind "claim": one claim reconcile against a bound XR
 	XRConds    []c05Cond `json:"xrConds"`
 	ClaimTypes []string  `json:"claimTypes"`
-	Kind     string    `json:"kind"` // "xr" | "claim"
-	Old      []c05Cond `json:"old"`
-	Composed []c05Res  `json:"composed"`
-	Explicit string    `json:"explicit"` // "unset" "true" "false"
-	FnConds  []c05Cond `json:"fnConds"`
-	Err      string    `json:"err"` // "none" "generic" "invalid" "conflict"
+	Kind       string    `json:"kind"` // "xr" | "claim"
+	Old        []c05Cond `json:"old"`
+	Composed   []c05Res  `json:"composed"`
+	Explicit   string    `json:"explicit"` // "unset" "true" "false"
+	FnConds    []c05Cond `json:"fnConds"`
+	Err        string    `json:"err"` // "none" "generic" "invalid" "conflict"
 }
 
 type c05OCond struct {
@@ -65,14 +65,17 @@ type c05OCond struct {
 
 type c05Obs struct {
 	Conds      []c05OCond `json:"conds"`
-	ClaimTypes []string  `json:"claimTypes"`
-	Wrote      bool      `json:"wrote"`
+	ClaimTypes []string   `json:"claimTypes"`
+	Wrote      bool       `json:"wrote"`
 }
 
 var c05XRGVK = schema.GroupVersionKind{Group: "example.org", Version: "v1", Kind: "XThing"}
 
 func c05CondUniverse() []string {
-	return []string{"Ready", "Synced", "Healthy", "DatabaseReady", "NetworkOK", "ready", "Custom"}
+	// system types, custom types, and custom types that differ from a system type only in case,
+	// by a string prefix / suffix or a trailing separator
+	return []string{"Ready", "Synced", "Healthy", "DatabaseReady", "NetworkOK", "ready", "Custom",
+		"synced", "Read", "ReadyX", "Ready ", "Synced/", "Custom2"}
 }
 
 func c05Gen(r *Rng) c05Scn {
@@ -314,11 +317,56 @@ func c05RunClaim(s c05Scn) (c05Obs, []Mon) {
 	return obs, mons
 }
 
+// c05Replay replays a corpus scenario of one of the newer families; false = not one of them.
+func c05Replay(c *Ctx, raw []byte, kind string) bool {
+	switch kind {
+	case "seq":
+		var s c05SeqScn
+		if jsonUnmarshalStrict(raw, &s) == nil {
+			obs, mons := c05RunSeq(s)
+			c.Emit(s, obs, mons, "corpus")
+		}
+		return true
+	case "claimseq":
+		var s c05ClaimSeqScn
+		if jsonUnmarshalStrict(raw, &s) == nil {
+			obs, mons := c05RunClaimSeq(s)
+			c.Emit(s, obs, mons, "corpus")
+		}
+		return true
+	case "ready":
+		var s c05ReadyScn
+		if jsonUnmarshalStrict(raw, &s) == nil {
+			obs, mons := c05RunReady(s)
+			c.Emit(s, obs, mons, "corpus")
+		}
+		return true
+	case "ptst":
+		var s c05PTScn
+		if jsonUnmarshalStrict(raw, &s) == nil {
+			obs, mons := c05RunPT(s)
+			c.Emit(s, obs, mons, "corpus")
+		}
+		return true
+	case "fn":
+		var s c05FnScn
+		if jsonUnmarshalStrict(raw, &s) == nil {
+			obs, mons := c05RunFn(s)
+			c.Emit(s, obs, mons, "corpus")
+		}
+		return true
+	}
+	return false
+}
+
 func init() {
 	Register("C05", func(c *Ctx) {
 		for _, raw := range c.Corpus {
 			var s c05Scn
 			if err := jsonUnmarshalStrict(raw, &s); err == nil {
+				if c05Replay(c, raw, s.Kind) {
+					continue
+				}
 				if s.Kind == "claim" {
 					obs, mons := c05RunClaim(s)
 					c.Emit(s, obs, mons, "corpus")
@@ -327,6 +375,9 @@ func init() {
 				obs, mons := c05Run(s)
 				c.Emit(s, obs, mons, "corpus")
 			}
+		}
+		if c.Tier == "thorough" && c.Seed%1000 == 0 {
+			c05Exhaustive(c)
 		}
 		for i := 0; i < c.N; i++ {
 			if i%8 == 5 {
@@ -338,7 +389,7 @@ func init() {
 						xs.Rounds[j].Desired[c.Rng.Intn(len(xs.Rounds[j].Desired))].Content = xwInvalidContent
 					}
 				}
-				xo, xm := c01Run(&xs)
+				xo, xm := c05RunWorld(&xs)
 				var keep []Mon
 				for _, m := range xm {
 					if len(m.Sig) > 4 && m.Sig[:4] == "C05:" {
@@ -354,6 +405,36 @@ func init() {
 					}
 				}
 				c.Emit(xs, xo, keep, fmt.Sprintf("composer/%s/rejected=%d", xs.Mode, min(inv, 4)))
+				continue
+			}
+			if i%8 == 7 {
+				s := c05GenClaimSeq(c.Rng)
+				obs, mons := c05RunClaimSeq(s)
+				c.Emit(s, obs, mons, c05ClaimSeqCls(s))
+				continue
+			}
+			if i%16 == 12 {
+				s := c05GenPT(c.Rng)
+				obs, mons := c05RunPT(s)
+				c.Emit(s, obs, mons, c05PTCls(s))
+				continue
+			}
+			if i%16 == 4 {
+				s := c05GenReady(c.Rng)
+				obs, mons := c05RunReady(s)
+				c.Emit(s, obs, mons, c05ReadyCls(s, obs))
+				continue
+			}
+			if i%8 == 2 {
+				s := c05GenFn(c.Rng)
+				obs, mons := c05RunFn(s)
+				c.Emit(s, obs, mons, c05FnCls(s))
+				continue
+			}
+			if i%8 == 1 || i%8 == 6 {
+				s := c05GenSeq(c.Rng)
+				obs, mons := c05RunSeq(s)
+				c.Emit(s, obs, mons, c05SeqCls(s))
 				continue
 			}
 			if i%4 == 3 {
